@@ -39,7 +39,9 @@ Inductive aexpr :=
 | EAnnotated (e : aexpr) (m : N)          (* Annotated[e, m] *)
 | EFinal (e : aexpr)                      (* Final[e] *)
 | EClassVar (e : aexpr)                   (* ClassVar[e] *)
-| EStr (e : aexpr).                       (* "e": a string / forward reference *)
+| EStr (e : aexpr)                        (* "e": a string / forward reference *)
+| EAlias (n : N)                          (* a PEP 695 alias used by name: `type X = ...`; X *)
+| EAliasApp (n : N) (es : list aexpr).    (* a generic PEP 695 alias with arguments: X[e1, ...] *)
 
 (* unite_values, up to representation *)
 Definition has_none_v (v : tval) : bool :=
@@ -67,6 +69,7 @@ Fixpoint has_tag (crash : bool) (v : tval) : bool :=
   | TUnion _ ms => existsb (has_tag crash) ms
   | TSub v | TCallAny v | TAnnot v _ => has_tag crash v
   | TCall ps r => existsb (has_tag crash) ps || has_tag crash r
+  | TAlias _ args => existsb (has_tag crash) args
   | _ => false
   end.
 
@@ -106,6 +109,7 @@ Definition interp (a : option action) (args : list tval) (lits : list Z) (nested
   | Some ActTransparent => hd TErr args
   | Some ActCallable => if ellipsis then TCallAny (hd TErr args) else TCall (tl args) (hd TErr args)
   | Some ActGenericOf => TGeneric c args
+  | Some ActAliasOf => TAlias c args
   | Some ActUnpacked | None => TErr          (* Unpack outside a tuple / unrecognised form *)
   end.
 
@@ -147,6 +151,8 @@ Fixpoint route_ast (e : aexpr) : tval :=
   | EFinal e => ast_do FFinal [route_ast e] [] false 0 0 false
   | EClassVar e => ast_do FClassVar [route_ast e] [] false 0 0 false
   | EStr e => route_ast e                          (* _eval_forward_ref: parse, then this route *)
+  | EAlias n => TAlias n []                        (* a name: the object itself goes through _type_from_runtime *)
+  | EAliasApp n es => ast_do FTypeAlias (map route_ast es) [] false n 0 false
   end.
 
 (* ---- runtime-object route ------------------------------------------------ *)
@@ -175,6 +181,8 @@ Fixpoint route_runtime (e : aexpr) : tval :=
   | EFinal e => rt_do FFinal [route_runtime e] [] false 0 0 false
   | EClassVar e => rt_do FClassVar [route_runtime e] [] false 0 0 false
   | EStr e => route_ast e                          (* a str object goes through _eval_forward_ref *)
+  | EAlias n => TAlias n []
+  | EAliasApp n es => rt_do FTypeAlias (map route_runtime es) [] false n 0 false
   end.
 
 (* ---- annotation written in the checked module ---------------------------- *)
@@ -189,7 +197,7 @@ Fixpoint has_star_unpack (e : aexpr) : bool :=
   match e with
   | EStarTuple _ _ => true
   | EOptional e | ETupleVar e | EType e | ECallableAny e | EAnnotated e _ | EFinal e | EClassVar e | EStr e => has_star_unpack e
-  | EUnion es | EGeneric _ es | ETupleFixed es => existsb has_star_unpack es
+  | EUnion es | EGeneric _ es | ETupleFixed es | EAliasApp _ es => existsb has_star_unpack es
   | EOr a b => has_star_unpack a || has_star_unpack b
   | EUnpackTuple pre s => existsb has_star_unpack pre || has_star_unpack s
   | ECallable ps r => existsb has_star_unpack ps || has_star_unpack r
